@@ -69,6 +69,7 @@ var corruptions = []string{"flip-first", "flip-middle", "flip-last", "trunc-0", 
 var stacks = []string{"none", "none", "cache", "repaircache", "router", "failover", "dedup", "writededup", "swap"}
 
 type backend struct {
+	evilMode     string
 	kind         string
 	uncompressed bool
 	dir          string    // backing directory (all but s3)
@@ -163,6 +164,7 @@ func newBackend(kind string, uncompressed bool, dir string) *backend {
 			os.Setenv("CASYNC_REMOTE_PATH", cli)
 			if kind == "ssh-evil" {
 				os.Setenv("SHIM_EVIL", b.dir)
+				os.Setenv("SHIM_EVIL_MODE", b.evilMode)
 			} else {
 				os.Unsetenv("SHIM_EVIL")
 			}
@@ -299,6 +301,7 @@ func run(c *harness.Ctx, i int) {
 	stack := stacks[rng.Intn(len(stacks))]
 	b := newBackend(kind, uncompressed, dir)
 	defer b.close()
+	b.evilMode = []string{"other-id", "requested-id", "unflagged-plain", "unflagged-compressed", "unflagged-garbage", "unflagged-empty"}[rng.Intn(6)]
 	uncompressed = b.uncompressed
 
 	// the blob is a catar of a small tree, so that untar -i can be a consumer
@@ -368,7 +371,7 @@ func run(c *harness.Ctx, i int) {
 		if err == nil {
 			c.Count("evil_accepted", 1)
 		}
-		c.NonTrivial("%s|%v|hostile|%s", kind, uncompressed, stack)
+		c.NonTrivial("%s|%v|hostile-%s|%s", kind, uncompressed, b.evilMode, stack)
 		c.Count("cases_with_poisoned_request", 1)
 		return
 	}
@@ -633,7 +636,12 @@ func cliConsumers(c *harness.Ctx, dir string, b *backend, blob []byte, idx desyn
 	dsu.Must(dsu.WriteIndex(idxFile, idx))
 	cfg := filepath.Join(dir, "cli-config.json")
 	dsu.WriteFile(cfg, []byte(fmt.Sprintf(`{"store-options": {%q: {"uncompressed": %v, "error-retry": 1}}}`, b.cliLoc, b.uncompressed)))
+	// (every other case with --trust-insecure: a switch about TLS certificates, nothing to do with chunk validation)
+	trust := c.Rng.Intn(2) == 0
 	run := func(args ...string) ([]byte, []byte, error) {
+		if trust && len(args) > 0 && (args[0] == "extract" || args[0] == "cat" || args[0] == "untar") {
+			args = append([]string{args[0], "-t"}, args[1:]...)
+		}
 		cmd := exec.Command(cli, append([]string{"--config", cfg}, args...)...)
 		cmd.Env = append(append(os.Environ(), "HOME="+dir), b.cliEnv...)
 		var so, se bytes.Buffer
